@@ -20,6 +20,35 @@ void svt_print_alloc_fail(const char* file, int line) {
     SVT_FATAL("allocate memory failed, at %s, L%d\n", file, line);
 }
 
+#ifdef SVT_AV1_VERIF
+/* verification hook (property C16), see EbMalloc.h */
+#include <stdlib.h>
+volatile long svt_verif_fail_at     = 0;
+volatile long svt_verif_alloc_count = 0;
+volatile long svt_verif_fired       = 0;
+const char*   svt_verif_fail_file   = NULL;
+int           svt_verif_fail_line   = 0;
+void (*svt_verif_site_hook)(const char* file, int line, long count) = NULL;
+int svt_verif_fail_here(const char* file, int line) {
+    static volatile int env_read = 0;
+    if (!env_read) {
+        const char* e = getenv("SVT_VERIF_FAIL_AT");
+        env_read      = 1;
+        if (e && svt_verif_fail_at == 0)
+            svt_verif_fail_at = atol(e);
+    }
+    long n = __sync_add_and_fetch(&svt_verif_alloc_count, 1);
+    if (svt_verif_site_hook)
+        svt_verif_site_hook(file, line, n);
+    if (n == svt_verif_fail_at) {
+        svt_verif_fail_file = file;
+        svt_verif_fail_line = line;
+        __sync_add_and_fetch(&svt_verif_fired, 1);
+        return 1;
+    }
+    return 0;
+}
+#endif /* SVT_AV1_VERIF */
 #ifdef DEBUG_MEMORY_USAGE
 
 static EbHandle g_malloc_mutex;
